@@ -181,6 +181,18 @@ func runSendBatch(s sbScript) sbResult {
 			ocancel()
 			cctx = oc
 		}
+		if i%2 == 0 {
+			// every second call reads a row that exists: its result carries cells (in the response's cellblock, after the
+			// results of the calls before it)
+			row := []byte(rowOf(i))
+			cl.PutRow("t", row, []verifsim.KV{{Row: row, Family: []byte("f"), Qualifier: []byte("q"), Timestamp: 1, Type: 4, Value: []byte("stored")}})
+			g, err := hrpc.NewGet(cctx, []byte("t"), row)
+			if err != nil {
+				panic(err)
+			}
+			batch[i-1] = g
+			continue
+		}
 		p, err := hrpc.NewPut(cctx, []byte("t"), []byte(rowOf(i)), map[string]map[string][]byte{"f": {"q": []byte("v")}})
 		if err != nil {
 			panic(err)
